@@ -23,7 +23,8 @@ from harness import grammars as gr
 TERMINALS = ['x', 'y']
 POOL = ['A', 'AA', 'B', 'C']
 STEP_BUDGET = 20_000          # events of the parse loop; finished parses of <= 5 tokens need a few hundred
-LR_PROBES_PER_TASK = 6        # accepted spec-left-recursive grammars whose parses are run, per work unit
+LR_PROBES_PER_TASK = 40       # accepted spec-left-recursive grammars whose parses are run, per work unit
+LR_OVERRUNS_PER_TASK = 3      # ... and the number of budget overruns after which no more of them are run
 WALL_BUDGET = 10.0            # seconds per call
 MAX_TOKENS = 5
 
@@ -31,34 +32,33 @@ GIR = 'GrammarIsRecursive'
 
 
 def families(tier):
-    """(label, n_nt, terminals, max_alts, max_rhs, max_total)"""
+    """(label, n_nt, terminals, max_alts, max_rhs, max_total, smart settings, max tokens for the
+    assignments other than the first one)"""
     if tier == 'quick':
-        return [('k1', 1, TERMINALS, 2, 3, None),
-                ('k2', 2, TERMINALS, 2, 3, 5),
-                ('k3', 3, TERMINALS, 2, 3, 5)]
-    return [('k1', 1, TERMINALS, 2, 3, None),
-            ('k2', 2, TERMINALS, 2, 3, 6),
-            ('k3', 3, TERMINALS, 2, 3, 5),
-            ('k3-1t', 3, TERMINALS[:1], 2, 3, 6)]
+        return [('k1', 1, TERMINALS, 2, 3, None, (True,), 2),
+                ('k2', 2, TERMINALS, 2, 3, 5, (True,), 2),
+                ('k3-1t', 3, TERMINALS[:1], 2, 3, 5, (True,), 2)]
+    return [('k1', 1, TERMINALS, 2, 3, None, (True, False), 5),
+            ('k2', 2, TERMINALS, 2, 3, 6, (True, False), 2),
+            ('k3', 3, TERMINALS, 2, 3, 5, (True, False), 2),
+            ('k3-1t', 3, TERMINALS[:1], 2, 3, 6, (True,), 5)]
 
 
 def rule_text(tier):
     fams = '; '.join(f"{n} nonterminal(s), <= {ma} alternatives, RHS <= {mr}, terminals {t}"
                      + (f", <= {mt} symbol occurrences" if mt else '')
-                     for _, n, t, ma, mr, mt in families(tier))
-    inputs = ("all token strings of <= 5 tokens for the first name assignment of a shape and for every accepted "
-              "non-recursive grammar, <= 2 tokens for the other assignments" if tier == 'quick'
-              else "all token strings of <= 5 tokens for every accepted non-recursive grammar")
-    inputs += (f"; a grammar that is accepted although it is left-recursive by the spec is already a violation of "
-               f"raises_iff_recursive, its parses (all strings <= 5 tokens, until the first overrun) are run only for "
-               f"the first {LR_PROBES_PER_TASK} such grammars of each of the {len(tasks_for(tier))} work units "
-               f"(each overrun costs the whole budget)")
-    smart = "smart_factorization=True" if tier == 'quick' else "both smart_factorization settings"
+                     + f", smart_factorization in {list(sm)}, inputs <= {MAX_TOKENS} tokens (<= {ol} for the name "
+                       f"assignments after the first / the second factorization setting)"
+                     for _, n, t, ma, mr, mt, sm, ol in families(tier))
     return (f"exhaustive: every grammar shape with all nonterminals reachable in the families [{fams}] x every "
-            f"injective assignment of nonterminal names from the pool {POOL} (start symbol passed explicitly), "
-            f"{smart}; construction of each; for accepted grammars {inputs}, each parse under a budget of "
-            f"{STEP_BUDGET} parse-loop events and {WALL_BUDGET} s. non-trivial = some production has a nullable "
-            f"nonterminal in front of another symbol (a nullable prefix)")
+            f"injective assignment of nonterminal names from the pool {POOL} (start symbol passed explicitly); "
+            f"construction of each; for every accepted non-recursive grammar all token strings up to the stated length, "
+            f"each parse under a budget of {STEP_BUDGET} parse-loop events and {WALL_BUDGET} s. A grammar that is "
+            f"accepted although it is left-recursive by the spec is already a violation of raises_iff_recursive; its "
+            f"parses (all strings <= {MAX_TOKENS} tokens, until the first overrun) are run only for the first "
+            f"{LR_PROBES_PER_TASK} such grammars (and until {LR_OVERRUNS_PER_TASK} overruns were seen) of each of the "
+            f"{len(tasks_for(tier))} work units, because each overrun costs the whole budget. "
+            f"non-trivial = some production has a nullable nonterminal in front of another symbol (a nullable prefix)")
 
 
 # ---------------------------------------------------------------------------------------------
@@ -174,11 +174,6 @@ def check_parse(parser, tokens, lr):
                               f"parse({text!r}) did not return or raise: {val}"), None
 
 
-def input_sets():
-    full = list(gr.all_strings(TERMINALS, MAX_TOKENS))
-    return full, [w for w in full if len(w) <= 2]
-
-
 def make_case(G, start, terminals, smart, tokens=None):
     c = {'grammar': gr.to_json(G), 'start': start, 'terminals': list(terminals), 'smart_factorization': smart}
     if tokens is not None:
@@ -201,11 +196,9 @@ def _limit_memory():
 
 def work(task):
     tier, fam, part = task
-    label, n_nt, terminals, max_alts, max_rhs, max_total = fam
-    full, short = input_sets()
-    full = [w for w in full if all(t in terminals for t in w)]
-    short = [w for w in short if all(t in terminals for t in w)]
-    smarts = [True] if tier == 'quick' else [True, False]
+    label, n_nt, terminals, max_alts, max_rhs, max_total, smarts, other_len = fam
+    full = list(gr.all_strings(terminals, MAX_TOKENS))
+    short = [w for w in full if len(w) <= other_len]
     assigns = gr.name_assignments(n_nt, POOL)
     cases = []              # (case string, nontrivial)
     fails = {}              # key -> (clause, text, case, size)
@@ -213,7 +206,7 @@ def work(task):
     diags = []
     stats = Counter()
     max_steps = 0
-    lr_probed = 0
+    lr_probed = lr_overruns = 0
 
     def fail(clause, ksuf, text, case):
         key = f"C03.{clause}:{ksuf}"
@@ -243,11 +236,11 @@ def work(task):
                 if status != 'accepted':
                     continue
                 if lr:
-                    if lr_probed >= LR_PROBES_PER_TASK:
+                    if lr_probed >= LR_PROBES_PER_TASK or lr_overruns >= LR_OVERRUNS_PER_TASK:
                         stats['accepted-left-recursive:parses-not-run'] += 1
                         continue
                     lr_probed += 1
-                inputs = full if (tier != 'quick' or ai == 0 or lr) else short
+                inputs = full if ((ai == 0 and smart is smarts[0]) or lr) else short
                 for w in inputs:
                     outcome, steps, fl1, dg1 = check_parse(parser, w, lr)
                     stats['parses'] += 1
@@ -255,6 +248,7 @@ def work(task):
                     if fl1 is not None:
                         fail(fl1[0], fl1[1], f"[{gr.grammar_str(G)}] (start {start}, smart_factorization={smart}): "
                              + fl1[2], make_case(G, start, terminals, smart, w))
+                        lr_overruns += 1 if lr else 0
                         break           # one overrun per grammar is enough (each costs the whole budget)
                     max_steps = max(max_steps, steps)
                     if dg1 and len(diags) < 5:
